@@ -56,6 +56,7 @@ HAND = [
 ESC_TEXT_KINDS = {
     # kind -> (machine, state, flattened?)
     "fish_help": [("fish", "FSQ", True)],
+    "fish_double_quoted": [("fish", "FDQ", False)],
     "zsh_help": [("sh", "ZSQ", True)],
     "powershell_help": [("powershell", "PSQ", True)],
     "powershell_string": [("powershell", "PSQ", False)],
@@ -63,7 +64,7 @@ ESC_TEXT_KINDS = {
     "elvish_string": [("elvish", "ESQ", False)],
     "nushell_single_line": [("nushell", "NC", True)],
 }
-ESC_KINDS = ["fish_string", "fish_string_comma", "fish_help", "zsh_help", "zsh_value", "powershell_string",
+ESC_KINDS = ["fish_string", "fish_string_comma", "fish_help", "fish_double_quoted", "zsh_help", "zsh_value", "powershell_string",
              "powershell_help", "elvish_string", "elvish_help", "nushell_single_line"]
 
 
